@@ -377,7 +377,16 @@ class QvmCode(BaseCode):
                 prev1_type = expr.Type.from_type_char(prev1.type_char)
                 value = expr.NumericLiteral(value, prev1_type)
                 unary_expr = expr.UnaryOp(value, op)
-                value = unary_expr.eval()
+                try:
+                    value = unary_expr.eval()
+                except Exception:
+                    # leave it to fail (or not) at run time
+                    i += 1
+                    continue
+                if not prev1_type.can_hold(value):
+                    i += 1
+                    continue
+                value = prev1_type.coerce(value)
 
                 self._instrs[i-1] = QvmInstr(
                     f'push{prev1.type_char}', value)
@@ -415,11 +424,23 @@ class QvmCode(BaseCode):
                 left = expr.NumericLiteral(left, prev2_type)
                 right = expr.NumericLiteral(right, prev1_type)
                 binary_expr = expr.BinaryOp(left, right, op)
-                try:
-                    value = binary_expr.eval()
-                except (OverflowError, ZeroDivisionError):
+                if cur.op == Op.DIV and prev1_type.is_integral:
+                    # dividing two integral values gives a SINGLE at
+                    # run time; a folded push would keep the operand
+                    # type
                     i += 1
                     continue
+                try:
+                    value = binary_expr.eval()
+                except Exception:
+                    # leave it to fail (or not) at run time
+                    i += 1
+                    continue
+                if isinstance(value, complex) or \
+                   not prev1_type.can_hold(value):
+                    i += 1
+                    continue
+                value = prev1_type.coerce(value)
 
                 self._instrs[i-2] = QvmInstr(
                     f'push{prev1.type_char}', value)
